@@ -49,6 +49,11 @@ def patterns(tier, seed):
         {"cap0": 0, "msgs": [3000, 40], "takes": [2900, 140], "mode": "split_to", "freeze": False, "roundtrip": 2, "window": 2, "n": n},
         {"cap0": 8192, "msgs": [512], "takes": [512], "mode": "split", "freeze": True, "roundtrip": 1, "unsplit": False, "window": 3, "n": n},
     ]
+    # the buffer is filled to exactly its capacity and consumed completely (a handle with capacity() == 0
+    # that still owns the whole allocation in front of it)
+    ps += [{"cap0": c, "msgs": [c], "takes": [c], "mode": m, "window": 0, "n": n}
+           for (c, m) in ((64, "advance"), (1024, "advance"), (4096, "split_to"), (1024, "copy_to_bytes"), (64, "truncate"))]
+    ps.append({"cap0": 1024, "msgs": [1000, 24], "takes": [0, 1024], "mode": "advance", "window": 0, "n": n})
     count = 6 if tier == "quick" else 40
     for _ in range(count):
         period = rnd.randint(1, 5)
